@@ -11,12 +11,13 @@ Definition preds_of (i : cfg_input) : list bool :=
   [emptied_list_saved i; edit_while_detached i; odd_element_saved i].
 
 Definition check (k : case) : verdict :=
-  if negb (c11_scope (k_in k)) then VSkip else
-  let o := oracle (k_in k) (k_boot_ok k) (k_boot k) (k_obs k) in
-  match model_run (k_in k) with
+  let i := settle (k_in k) in     (* announced values no type can read: Spec/C11.v *)
+  if negb (c11_scope i) then VSkip else
+  let o := oracle i (k_boot_ok k) (k_boot k) (k_obs k) in
+  match model_run i with
   | None => mk_verdict None o
   | Some (b, snap, tr) =>
       mk_verdict (Some (Bool.eqb b (k_boot_ok k) && list_eqb rres_eqb snap (k_boot k)
                         && list_eqb obs_eqb tr (k_obs k)
-                        && list_eqb Bool.eqb (preds_of (k_in k)) (k_preds k))) o
+                        && list_eqb Bool.eqb (preds_of i) (k_preds k))) o
   end.
